@@ -191,6 +191,13 @@ def execute(ex, seed, budget, log_file):
     return out
 
 
+def quiet():
+    """Swallow the console chatter of the log parsers."""
+    import contextlib
+    import io
+    return contextlib.redirect_stdout(io.StringIO())
+
+
 REPL_KEYS = ("status", "f", "fes", "li", "xkey", "ykey", "fs", "archive")
 
 
@@ -461,7 +468,8 @@ def bp_check(spec, root):
         "g.name": f"ibf{spec['enc']}", "f.name": spec["obj"],
         "y.inst.name": inst.name, "a.name": o["algo"]})
     try:
-        pk = Packing.from_log(o["log"])
+        with quiet():
+            pk = Packing.from_log(o["log"])
         if not np.array_equal(np.array(pk, dtype=np.int64), rows) \
                 or pk.n_bins != y.n_bins or pk.instance.name != inst.name \
                 or pk.dtype != y.dtype:
@@ -473,7 +481,8 @@ def bp_check(spec, root):
         probs.append(("from_log-raised", f"Packing.from_log: "
                       f"{type(e).__name__}: {e}"[:300]))
     try:
-        pr = from_single_log(o["log"])
+        with quiet():
+            pr = from_single_log(o["log"])
         bp_parsed_checks(pr, spec, inst, o, mv, probs)
         info["pr"] = pr
     except Exception as e:  # noqa
@@ -500,7 +509,8 @@ def bp_dir_check(directory, singles, spec0):
     probs = []
     got = []
     try:
-        from_logs(directory, got.append)
+        with quiet():
+            from_logs(directory, got.append)
     except Exception as e:  # noqa
         return [("from_logs-raised", f"from_logs({directory}): "
                  f"{type(e).__name__}: {e}"[:300])]
@@ -1125,8 +1135,6 @@ def job(a):
 
 def bp_run_experiment_job(a):
     """Directory really laid out by moptipy's run_experiment."""
-    import contextlib
-    import io
     from moptipy.api.experiment import run_experiment
     from moptipy.utils.nputils import rand_seeds_from_str
     from moptipyapps.binpacking2d.packing import Packing
@@ -1150,14 +1158,15 @@ def bp_run_experiment_job(a):
                     ex.set_algorithm(G(ex._algorithm, X.STEP_HORIZON))
                     return ex.set_max_fes(17, True)
                 return setup
-            with contextlib.redirect_stdout(io.StringIO()):
+            with quiet():
                 run_experiment(
                     base_dir=d, instances=[(lambda _n=n: bp_instance(_n))
                                            for n in names],
                     setups=[mk(t["E"].rls), mk(t["E"].fea)], n_runs=2,
                     perform_warmup=False, perform_pre_warmup=False)
             got = []
-            from_logs(d, got.append)
+            with quiet():
+                from_logs(d, got.append)
             out["dir_checks"] += 1
             out["dir_results"] += len(got)
             out["runs"] += len(got)
@@ -1174,7 +1183,8 @@ def bp_run_experiment_job(a):
                         "inst": er.instance, "seed": er.rand_seed,
                         "budget": 17}
                 lf = log_path(d, er.algorithm, er.instance, er.rand_seed)
-                pk = Packing.from_log(lf)
+                with quiet():
+                    pk = Packing.from_log(lf)
                 rows = np.array(pk, dtype=np.int64)
                 probs = []
                 code = P.feasible_intervals(
